@@ -1,129 +1,315 @@
 (* Props/C20.v — property C20: Synchronizer output is exactly the accepted traces, in order, with own metadata.
    Only statements closed by [exact]; Print Assumptions beneath each.  Proofs are in Proofs/Sync.v.
 
-   Reading guide.  A trace is (metadata, samples) : M * X.  [f i t] is what the user's function does at its i-th call,
-   on trace t: [Accept d] (returns data d), [ReturnNone], [Raise] (any Exception).  Every theorem is for ALL types
-   M X D, ALL functions f (stateful ones included: the call number is an argument) and ALL input lists.
-   [run f st input] is Synchronizer.run on an object in state st: [None] = SynchronizerError, [Some st'] = the state
-   after the loop.  [writes st'] is the log of write requests (index, (metadata, data)) sent to the output writer;
-   [store_get] / [store_size] read it as a file: the content of row j and the number of rows. *)
+   Reading guide.  A trace is (metadata, samples) : M * X.  [f i t] is what the user's function does at its i-th call
+   since the object was built (calls made by check() count), on trace t: [Accept d] (returns data d), [ReturnNone],
+   [Raise] (any Exception).  Every theorem is for ALL types M X D, ALL functions f (stateful ones included: the call
+   number is an argument), ALL input lists and ALL histories of public calls made on the object before run().
+
+   [construct old o] is Synchronizer(input, output, f, overwrite=o) where the file [output] does not exist
+   ([old = None]) or holds the rows [old = Some rows].  [after_history f st input evs] is the object after the calls
+   [evs]: [EvCheck picks catch] = check(len picks, catch_exceptions=catch) with np.random.choice having drawn [picks];
+   [EvReport] = report() / str().  [run f st input] is Synchronizer.run: [RunRefused] = SynchronizerError (already
+   called), [RunWriterError st'] = the writer's ETSWriterError left run() (file exists, overwrite=False), [RunDone st'] =
+   the loop finished and run() returns the reader [w_reader (out st')] ([None]: there is no file, no output set).
+   [blocking old o] = the file exists, has rows, and overwrite is False.  [writes st'] is the log of write requests
+   (index, (metadata, data)) honoured by the writer; [store_get] / [store_size] read it as a file.
+   [calls st] = number of calls made on f so far (ghost); [visible st] = everything else: the two counters, the log,
+   the single-use guard (_err_counter) and the writer with the file. *)
 From Coq Require Import ZArith List Bool.
 From ScaredV Require Import Run.Compare Model.Sync Proofs.Sync.
 Import ListNotations.
 Local Open Scope nat_scope.
 
-(* The spec list [accepted f input], without recursion: entry j is (metadata, returned data) of the input trace number i
-   such that the function returned data on it and exactly j earlier traces were accepted.  So: one output per accepted
-   input and none for the others, in input order, each with the metadata of its own originating trace. *)
+(* The spec list [accepted_from f c input] (c = number of the first call), without recursion: entry j is (metadata,
+   returned data) of the input trace number i such that the function returned data on it and exactly j earlier traces
+   were accepted.  So: one output per accepted input and none for the others, in input order, each with the metadata of
+   its own originating trace. *)
 Theorem accepted_is_the_accepted_traces_in_order :
-  forall (M X D : Type) (f : nat -> M * X -> outcome D) (input : list (M * X)) (j : nat) (m : M) (d : D),
-  nth_error (accepted M X D f input) j = Some (m, d) <->
-  exists i x, nth_error input i = Some (m, x) /\ f i (m, x) = Accept d
-              /\ length (accepted M X D f (firstn i input)) = j.
-Proof. exact accepted_char. Qed.
+  forall (M X D : Type) (f : nat -> M * X -> outcome D) (input : list (M * X)) (c j : nat) (m : M) (d : D),
+  nth_error (accepted_from M X D f c input) j = Some (m, d) <->
+  exists i x, nth_error input i = Some (m, x) /\ f (c + i) (m, x) = Accept d
+              /\ length (accepted_from M X D f c (firstn i input)) = j.
+Proof. exact accepted_from_char_thm. Qed.
 Print Assumptions accepted_is_the_accepted_traces_in_order.
 
-(* sync_output: after run on a fresh object the output holds exactly k = |accepted| rows, and row j is the j-th accepted
-   (metadata, data) pair; rows >= k do not exist. *)
+(* ---------------------------------------------------------------- histories before run() *)
+
+(* check_does_not_change_state: whatever the picks, catch_exceptions, the outcome (returned or left by exception, also
+   in the middle of the picks), check() leaves the counters, the write log, the single-use guard and the output alone *)
+Theorem check_does_not_change_state :
+  forall (M X D : Type) (f : nat -> M * X -> outcome D) (st : sstate M D) (input : list (M * X))
+         (picks : list nat) (catch : bool),
+  let st' := snd (check M X D f st input picks catch) in
+  processed st' = processed st /\ synchronized st' = synchronized st /\ writes st' = writes st
+  /\ errs st' = errs st /\ out st' = out st.
+Proof. exact check_frame_thm. Qed.
+Print Assumptions check_does_not_change_state.
+
+(* ... hence any number of check() and report() calls: the final object and every intermediate one *)
+Theorem history_does_not_change_state :
+  forall (M X D : Type) (f : nat -> M * X -> outcome D) (st : sstate M D) (input : list (M * X)) (evs : list event),
+  visible (after_history M X D f st input evs) = visible st
+  /\ Forall (fun r => visible (snd r) = visible st) (fst (exec_history M X D f st input evs)).
+Proof. exact history_frame_thm. Qed.
+Print Assumptions history_does_not_change_state.
+
+(* ... hence run() after ANY history is run() on a new object (same file, same overwrite) for the function as it
+   behaves from its next call on: same outcome, same counters, same log, same guard, same output *)
+Theorem run_after_any_history_is_run_on_new_object :
+  forall (M X D : Type) (f : nat -> M * X -> outcome D) (old : option (list (M * D))) (o : bool)
+         (input : list (M * X)) (evs : list event),
+  let st := after_history M X D f (construct old o) input evs in
+  run_visible (run M X D f st input)
+  = run_visible (run M X D (fun i => f (calls st + i)) (construct old o) input).
+Proof. exact run_after_history_as_fresh. Qed.
+Print Assumptions run_after_any_history_is_run_on_new_object.
+
+(* for a function that does not look at its call number the history is invisible altogether *)
+Theorem run_after_any_history_stateless_function :
+  forall (M X D : Type) (f : nat -> M * X -> outcome D) (old : option (list (M * D))) (o : bool)
+         (input : list (M * X)) (evs : list event),
+  (forall i j t, f i t = f j t) ->
+  run_visible (run M X D f (after_history M X D f (construct old o) input evs) input)
+  = run_visible (run M X D f (construct old o) input).
+Proof. exact run_after_history_stateless. Qed.
+Print Assumptions run_after_any_history_stateless_function.
+
+(* ---------------------------------------------------------------- the first run() *)
+
+(* output_is_exactly_accepted_even_if_file_existed: the complete case analysis of the first run(), after any history,
+   over any output file.  With [acc] the accepted traces of THIS run:
+   - it is never refused;
+   - it fails with the writer's error only when the file blocks (exists, non-empty, overwrite=False) and something was
+     accepted: at the first accepted trace, and the file is exactly what it was;
+   - otherwise it completes, the counters are (|input|, |acc|), and EITHER something was accepted, the file did not
+     block, and the reader holds exactly acc (never old rows followed by new ones), OR nothing was accepted and the
+     writer was not touched at all (the file, if one exists, is still the old one — see the manifest note). *)
+Theorem output_is_exactly_accepted_even_if_file_existed :
+  forall (M X D : Type) (f : nat -> M * X -> outcome D) (old : option (list (M * D))) (o : bool)
+         (input : list (M * X)) (evs : list event),
+  let st := after_history M X D f (construct old o) input evs in
+  let acc := accepted_from M X D f (calls st) input in
+  match run M X D f st input with
+  | RunRefused => False
+  | RunWriterError st' =>
+      blocking old o = true /\ acc <> []
+      /\ processed st' = S (rejected_prefix M X D f (calls st) input)
+      /\ rejected_prefix M X D f (calls st) input < length input
+      /\ synchronized st' = 1
+      /\ disk (out st') = option_map (map Some) old
+  | RunDone st' =>
+      processed st' = length input /\ synchronized st' = length acc
+      /\ ((acc <> [] /\ blocking old o = false /\ w_reader (out st') = Some (map Some acc))
+          \/ (acc = [] /\ out st' = new_writer old o))
+  end.
+Proof. exact run_after_history_thm. Qed.
+Print Assumptions output_is_exactly_accepted_even_if_file_existed.
+
+(* sync_output: when the file does not block, after run() the write log has exactly k = |acc| rows, row j is the j-th
+   accepted (metadata, data) pair, rows >= k do not exist; and the file read back is that list (when k = 0 nothing was
+   written: no file, or the untouched old one) *)
 Theorem sync_output :
-  forall (M X D : Type) (f : nat -> M * X -> outcome D) (input : list (M * X)) (st' : sstate M D),
-  run M X D f fresh input = Some st' ->
-  store_size (writes st') = length (accepted M X D f input)
-  /\ forall j, store_get (writes st') j = nth_error (accepted M X D f input) j.
-Proof. exact sync_output_thm. Qed.
+  forall (M X D : Type) (f : nat -> M * X -> outcome D) (old : option (list (M * D))) (o : bool)
+         (input : list (M * X)) (evs : list event) (st' : sstate M D),
+  blocking old o = false ->
+  run M X D f (after_history M X D f (construct old o) input evs) input = RunDone st' ->
+  store_size (writes st') = length (accepted_from M X D f (calls (after_history M X D f (construct old o) input evs)) input)
+  /\ (forall j, store_get (writes st') j
+                = nth_error (accepted_from M X D f (calls (after_history M X D f (construct old o) input evs)) input) j)
+  /\ w_reader (out st') = match accepted_from M X D f (calls (after_history M X D f (construct old o) input evs)) input with
+                          | [] => option_map (map Some) old
+                          | acc => Some (map Some acc)
+                          end.
+Proof. exact sync_output_hist. Qed.
 Print Assumptions sync_output.
 
 Theorem sync_output_rows :
-  forall (M X D : Type) (f : nat -> M * X -> outcome D) (input : list (M * X)) (st' : sstate M D),
-  run M X D f fresh input = Some st' -> store_rows (writes st') = map Some (accepted M X D f input).
-Proof. exact store_rows_thm. Qed.
+  forall (M X D : Type) (f : nat -> M * X -> outcome D) (old : option (list (M * D))) (o : bool)
+         (input : list (M * X)) (evs : list event) (st' : sstate M D),
+  blocking old o = false ->
+  run M X D f (after_history M X D f (construct old o) input evs) input = RunDone st' ->
+  store_rows (writes st')
+  = map Some (accepted_from M X D f (calls (after_history M X D f (construct old o) input evs)) input).
+Proof. exact store_rows_hist. Qed.
 Print Assumptions sync_output_rows.
 
-(* a fresh object always runs (the guard only refuses the second call) *)
+(* the first run() of an object whose file does not block always completes *)
 Theorem first_run_accepted :
-  forall (M X D : Type) (f : nat -> M * X -> outcome D) (input : list (M * X)),
-  exists st', run M X D f fresh input = Some st'.
-Proof. exact run_fresh_defined. Qed.
+  forall (M X D : Type) (f : nat -> M * X -> outcome D) (old : option (list (M * D))) (o : bool)
+         (input : list (M * X)) (evs : list event),
+  blocking old o = false ->
+  exists st', run M X D f (after_history M X D f (construct old o) input evs) input = RunDone st'.
+Proof. exact run_defined_hist. Qed.
 Print Assumptions first_run_accepted.
 
 (* writes_are_appends: the p-th write request goes to index p — no gap, no row written twice ... *)
 Theorem writes_are_appends :
-  forall (M X D : Type) (f : nat -> M * X -> outcome D) (input : list (M * X)) (st' : sstate M D),
-  run M X D f fresh input = Some st' -> map fst (writes st') = seq 0 (length (writes st')).
-Proof. exact writes_are_appends_thm. Qed.
+  forall (M X D : Type) (f : nat -> M * X -> outcome D) (old : option (list (M * D))) (o : bool)
+         (input : list (M * X)) (evs : list event) (st' : sstate M D),
+  blocking old o = false ->
+  run M X D f (after_history M X D f (construct old o) input evs) input = RunDone st' ->
+  map fst (writes st') = seq 0 (length (writes st')).
+Proof. exact writes_are_appends_hist. Qed.
 Print Assumptions writes_are_appends.
 
 (* ... and at every moment of a run (the state after a prefix [input], about to handle trace [t]) an accepted trace
-   is written at index synchronized_counter - 1, which is the first row not yet in the file *)
+   is written at index synchronized_counter - 1, which is the first row not yet in the file: the file becomes the
+   accepted traces so far followed by this one *)
 Theorem write_index_is_next_free_row :
-  forall (M X D : Type) (f : nat -> M * X -> outcome D) (input : list (M * X)) (st' : sstate M D) (t : M * X) (d : D),
-  run M X D f fresh input = Some st' -> f (length input) t = Accept d ->
-  writes (step M X D f st' (length input) t) = writes st' ++ [(store_size (writes st'), (fst t, d))].
-Proof. exact next_write_is_next_free. Qed.
+  forall (M X D : Type) (f : nat -> M * X -> outcome D) (old : option (list (M * D))) (o : bool)
+         (input : list (M * X)) (evs : list event) (st' : sstate M D) (t : M * X) (d : D),
+  blocking old o = false ->
+  run M X D f (after_history M X D f (construct old o) input evs) input = RunDone st' ->
+  f (calls st') t = Accept d ->
+  exists st'', step M X D f st' t = Go st''
+  /\ writes st'' = writes st' ++ [(store_size (writes st'), (fst t, d))]
+  /\ w_reader (out st'')
+     = Some (map Some (accepted_from M X D f (calls (after_history M X D f (construct old o) input evs)) input)
+             ++ [Some (fst t, d)]).
+Proof. exact next_write_hist. Qed.
 Print Assumptions write_index_is_next_free_row.
 
+(* for ANY object state: a run on l1 ++ [t] is the run on l1 followed by one loop iteration on t *)
 Theorem run_on_prefix_is_intermediate_state :
-  forall (M X D : Type) (f : nat -> M * X -> outcome D) (l1 : list (M * X)) (t : M * X) (st1 : sstate M D),
-  run M X D f fresh l1 = Some st1 -> run M X D f fresh (l1 ++ [t]) = Some (step M X D f st1 (length l1) t).
+  forall (M X D : Type) (f : nat -> M * X -> outcome D) (st : sstate M D) (l1 : list (M * X)) (t : M * X) (st1 : sstate M D),
+  run M X D f st l1 = RunDone st1 ->
+  run M X D f st (l1 ++ [t]) = match step M X D f st1 t with Go s => RunDone s | Stop s => RunWriterError s end.
 Proof. exact run_snoc. Qed.
 Print Assumptions run_on_prefix_is_intermediate_state.
 
 (* counters: processed = number of inputs, synchronized = number of accepted traces *)
 Theorem counters :
-  forall (M X D : Type) (f : nat -> M * X -> outcome D) (input : list (M * X)) (st' : sstate M D),
-  run M X D f fresh input = Some st' ->
-  processed st' = length input /\ synchronized st' = length (accepted M X D f input).
-Proof. exact counters_thm. Qed.
+  forall (M X D : Type) (f : nat -> M * X -> outcome D) (old : option (list (M * D))) (o : bool)
+         (input : list (M * X)) (evs : list event) (st' : sstate M D),
+  blocking old o = false ->
+  run M X D f (after_history M X D f (construct old o) input evs) input = RunDone st' ->
+  processed st' = length input
+  /\ synchronized st' = length (accepted_from M X D f (calls (after_history M X D f (construct old o) input evs)) input).
+Proof. exact counters_hist. Qed.
 Print Assumptions counters.
 
-(* ... also when nothing was accepted: nothing is written at all, the counters are |input| and 0 *)
+(* ... also when nothing was accepted, over any file: run() completes, nothing is written, counters |input| and 0 *)
 Theorem counters_when_nothing_accepted :
-  forall (M X D : Type) (f : nat -> M * X -> outcome D) (input : list (M * X)) (st' : sstate M D),
+  forall (M X D : Type) (f : nat -> M * X -> outcome D) (old : option (list (M * D))) (o : bool)
+         (input : list (M * X)) (evs : list event),
   (forall i t d, f i t <> Accept d) ->
-  run M X D f fresh input = Some st' ->
-  processed st' = length input /\ synchronized st' = 0 /\ writes st' = [].
-Proof. exact counters_nothing_accepted_thm. Qed.
+  exists st', run M X D f (after_history M X D f (construct old o) input evs) input = RunDone st'
+  /\ processed st' = length input /\ synchronized st' = 0 /\ writes st' = [] /\ out st' = new_writer old o.
+Proof. exact counters_nothing_accepted_hist. Qed.
 Print Assumptions counters_when_nothing_accepted.
 
-(* second_run_refused: whatever the first run did, run() on the resulting object is refused (on any input) *)
+(* second_run_refused: in ANY object state, once run() has entered its loop — whether it completed or was left by the
+   writer's error — run() on the resulting object is refused (on any input) *)
 Theorem second_run_refused :
-  forall (M X D : Type) (f : nat -> M * X -> outcome D) (input : list (M * X)) (st' : sstate M D) (input2 : list (M * X)),
-  run M X D f fresh input = Some st' -> run M X D f st' input2 = None.
+  forall (M X D : Type) (f : nat -> M * X -> outcome D) (st : sstate M D) (input input2 : list (M * X)),
+  match run M X D f st input with
+  | RunRefused => True
+  | RunWriterError st' => run M X D f st' input2 = RunRefused
+  | RunDone st' => run M X D f st' input2 = RunRefused
+  end.
 Proof. exact second_run_refused_thm. Qed.
 Print Assumptions second_run_refused.
 
-(* non-vacuity: six traces, pattern Accept / Raise / None / Accept / Accept / Raise, data shorter than the samples *)
+(* ---------------------------------------------------------------- non-vacuity *)
+Definition ex_input : list (list Z * list Z) :=
+  [([100], [0; 1; 2; 3]); ([101], [4; 5; 6; 7]); ([102], [8; 9; 10; 11]);
+   ([103], [12; 13; 14; 15]); ([104], [16; 17; 18; 19]); ([105], [20; 21; 22; 23])]%Z.
+(* calls 0..3: check(4, catch_exceptions=True) sees Accept / Raise / None / Accept; calls 4,5: check(3, False) sees
+   Accept, then Raise and leaves; then str(); calls 6..11 are the run: Accept / Raise / None / Accept / Accept / Raise *)
+Definition ex_pat : list (outcome (list Z)) :=
+  [Accept [7]; Raise; ReturnNone; Accept [8]; Accept [9]; Raise;
+   Accept [1; 3]; Raise; ReturnNone; Accept [25; 27]; Accept [33; 35]; Raise]%Z.
+Definition ex_f := fun i (_ : list Z * list Z) => nth i ex_pat Raise.
+Definition ex_hist := [EvCheck [2; 2; 5; 0] true; EvCheck [1; 4; 3] false; EvReport].
+Definition ex_old : list (list Z * list Z) := [([1], [1; 1]); ([2], [2; 2]); ([3], [3; 3]); ([4], [4; 4])]%Z.
+
+(* a history with both kinds of check() (one leaving by exception after an accepted pick), then run on a new file *)
 Example sync_example :
-  let input := [([100], [0; 1; 2; 3]); ([101], [4; 5; 6; 7]); ([102], [8; 9; 10; 11]);
-                ([103], [12; 13; 14; 15]); ([104], [16; 17; 18; 19]); ([105], [20; 21; 22; 23])]%Z in
-  let pat := [Accept [1; 3]; Raise; ReturnNone; Accept [25; 27]; Accept [33; 35]; Raise]%Z in
-  let f := fun i (_ : list Z * list Z) => nth i pat Raise in
-  exists st', run _ _ _ f fresh input = Some st'
+  exists h st st',
+    exec_history _ _ _ ex_f fresh ex_input ex_hist = (h, st)
+    /\ map fst h = [ErCheck (CheckReturned [Some [7]; None; Some [8]]%Z); ErCheck CheckRaised; ErReport None]
+    /\ calls st = 6
+    /\ run _ _ _ ex_f st ex_input = RunDone st'
+    /\ w_reader (out st') = Some [Some ([100], [1; 3]); Some ([103], [25; 27]); Some ([104], [33; 35])]%Z
     /\ store_rows (writes st') = [Some ([100], [1; 3]); Some ([103], [25; 27]); Some ([104], [33; 35])]%Z
     /\ processed st' = 6 /\ synchronized st' = 3
-    /\ run _ _ _ f st' input = None.
-Proof. eexists. vm_compute. repeat split; reflexivity. Qed.
+    /\ run _ _ _ ex_f st' ex_input = RunRefused.
+Proof. eexists. eexists. eexists. vm_compute. repeat split; reflexivity. Qed.
+
+(* the same over an existing file of four rows: overwrite=False fails at the first accepted trace and keeps the file,
+   overwrite=True replaces it *)
+Example sync_example_existing_file :
+  (exists st',
+     run _ _ _ ex_f (after_history _ _ _ ex_f (construct (Some ex_old) false) ex_input ex_hist) ex_input = RunWriterError st'
+     /\ blocking (Some ex_old) false = true
+     /\ processed st' = 1 /\ synchronized st' = 1 /\ disk (out st') = Some (map Some ex_old)
+     /\ run _ _ _ ex_f st' ex_input = RunRefused)
+  /\ (exists st',
+     run _ _ _ ex_f (after_history _ _ _ ex_f (construct (Some ex_old) true) ex_input ex_hist) ex_input = RunDone st'
+     /\ blocking (Some ex_old) true = false
+     /\ w_reader (out st') = Some [Some ([100], [1; 3]); Some ([103], [25; 27]); Some ([104], [33; 35])]%Z
+     /\ processed st' = 6 /\ synchronized st' = 3).
+Proof. split; eexists; vm_compute; repeat split; reflexivity. Qed.
 
 (* the all-rejected instance of counters_when_nothing_accepted *)
 Example sync_example_all_rejected :
   let input := [([100], [0; 1]); ([101], [4; 5]); ([102], [8; 9])]%Z in
   let f := fun (i : nat) (_ : list Z * list Z) => if Nat.even i then @Raise (list Z) else ReturnNone in
   (forall i t d, f i t <> Accept d)
-  /\ exists st', run _ _ _ f fresh input = Some st' /\ processed st' = 3 /\ synchronized st' = 0 /\ writes st' = [].
+  /\ exists st', run _ _ _ f (after_history _ _ _ f fresh input [EvCheck [1; 1] true]) input = RunDone st'
+                 /\ processed st' = 3 /\ synchronized st' = 0 /\ writes st' = [] /\ w_reader (out st') = None.
 Proof.
   split.
   - intros i t d. cbv beta zeta. destruct (Nat.even i); discriminate.
   - eexists. vm_compute. repeat split; reflexivity.
 Qed.
 
-(* the correspondence check accepts a faithful observation and rejects the three edits named in the design *)
+(* a stateless function (accepts the traces whose metadata is even): instance of run_after_any_history_stateless_function *)
+Example sync_example_stateless :
+  let f := fun (_ : nat) (t : list Z * list Z) =>
+             match fst t with [m] => if Z.even m then Accept (snd t) else Raise | _ => ReturnNone end%Z in
+  (forall i j t, f i t = f j t)
+  /\ run_visible (run _ _ _ f (after_history _ _ _ f fresh ex_input ex_hist) ex_input)
+     = run_visible (run _ _ _ f fresh ex_input)
+  /\ exists st', run _ _ _ f fresh ex_input = RunDone st' /\ synchronized st' = 3.
+Proof. split; [reflexivity|]. split; [reflexivity|]. eexists. vm_compute. split; reflexivity. Qed.
+
+(* the correspondence check accepts faithful observations and rejects the edits named in the design and by the reviewers *)
+Definition ck_input : list zrow := [([100], [0; 1]); ([101], [4; 5]); ([102], [8; 9])]%Z.
+Definition ck_mk pat old ovw hist ohist seen robs p s rep rows :=
+  {| sy_input := ck_input; sy_pattern := pat; sy_old := old; sy_overwrite := ovw; sy_history := hist;
+     sy_obs_history := ohist; sy_obs_seen := seen; sy_obs_run := robs; sy_obs_processed := p; sy_obs_synchronized := s;
+     sy_obs_report := rep; sy_obs_warnings := 0; sy_obs_rows := rows; sy_obs_second_refused := true |}.
+
 Example sync_check_discriminates :
-  let input := [([100], [0; 1]); ([101], [4; 5]); ([102], [8; 9])]%Z in
   let pat := [Accept [1]; ReturnNone; Accept [9]]%Z in
-  let mk rows sc := {| sy_input := input; sy_pattern := pat; sy_obs_seen := input; sy_obs_processed := 3;
-                       sy_obs_synchronized := sc; sy_obs_rows := Some rows; sy_obs_second_refused := true |} in
+  let mk rows sc := ck_mk pat None false [] [] ck_input ObsReturned 3 sc (Some (3, sc)) (Some rows) in
   sync_check (mk [([100], [1]); ([102], [9])]%Z 2) = true
   /\ sync_check (mk [([100], [1]); ([], []); ([102], [9])]%Z 2) = false      (* index from processed_counter *)
   /\ sync_check (mk [([100], [1]); ([101], [9])]%Z 2) = false                (* metadata of the previous trace *)
   /\ sync_check (mk [([100], [1]); ([], []); ([102], [9])]%Z 3) = false.     (* counter bumped before the None test *)
+Proof. vm_compute. repeat split; reflexivity. Qed.
+
+Example sync_check_discriminates_histories :
+  let old := [([7], [7]); ([8], [8])]%Z in
+  let pat := [Accept [1]; ReturnNone; Accept [9]]%Z in
+  (* existing file, overwrite=False: the writer's error at the first accepted trace, file untouched ... *)
+  sync_check (ck_mk pat (Some old) false [] [] (firstn 1 ck_input) ObsWriterError 1 1 (Some (1, 1)) (Some old)) = true
+  (* ... and NOT old rows followed by the new ones (accepted traces appended instead of written at their index) *)
+  /\ sync_check (ck_mk pat (Some old) false [] [] ck_input ObsReturned 3 2 (Some (3, 2))
+                       (Some (old ++ [([100], [1]); ([102], [9])]%Z))) = false
+  (* overwrite=True: the old rows are gone *)
+  /\ sync_check (ck_mk pat (Some old) true [] [] ck_input ObsReturned 3 2 (Some (3, 2)) (Some [([100], [1]); ([102], [9])]%Z)) = true
+  (* check(2, catch_exceptions=False) sees Accept then None and leaves; the run then starts from 0 / 0 ... *)
+  /\ (let pat2 := ([Accept [5]; ReturnNone] ++ pat)%Z in
+      let hist := [EvCheck [2; 0] false] in
+      let seen := ([([102], [8; 9]); ([100], [0; 1])] ++ ck_input)%Z in
+      sync_check (ck_mk pat2 None false hist [ObsCheck None 0 0] seen ObsReturned 3 2 (Some (3, 2))
+                        (Some [([100], [1]); ([102], [9])]%Z)) = true
+      (* ... and NOT from the counters check() left behind (2 / 1): shifted rows, counters 5 / 3 *)
+      /\ sync_check (ck_mk pat2 None false hist [ObsCheck None 2 1] seen ObsReturned 5 3 (Some (5, 3))
+                        (Some [([], []); ([100], [1]); ([102], [9])]%Z)) = false
+      /\ sync_check (ck_mk pat2 None false hist [ObsCheck None 0 0] seen ObsReturned 5 3 (Some (5, 3))
+                        (Some [([100], [1]); ([102], [9])]%Z)) = false).
 Proof. vm_compute. repeat split; reflexivity. Qed.
